@@ -1241,4 +1241,343 @@ theorem sess_mutex_iff (c : SCfg) : SessMutex c ↔ c.mutexOk = true := by
 #print axioms C18_witness_lock_needs_session
 #print axioms C18_witness_flag_outlives_session
 
+/-! #### The session clock under session requests (wave 6): what "consecutive steps" means per session state -/
+
+/-- consecutive, starting anywhere. -/
+def Consec (l : List Nat) : Prop := l = List.range' (l.headD 0) l.length
+
+structure CInv (s : CState) : Prop where
+  m : SMInv s.base
+  pre : ∀ i : Nat, s.base.ths[i]? = some Phase.pre → s.locs[i]? = some none
+  fut : ∀ p ∈ s.log, p.1 ≤ s.epoch
+  old : ∀ e : Nat, Consec (timesOf e s.log)
+  cur0 : timesOf s.epoch s.log = [] → s.clock = 0
+  cur : timesOf s.epoch s.log ≠ [] → (timesOf s.epoch s.log).headD 0 + (timesOf s.epoch s.log).length = s.clock
+  loc : ∀ (i l : Nat), s.base.ths[i]? = some Phase.holding → s.locs[i]? = some (some l) →
+    l = s.clock ∨ timesOf s.epoch s.log = []
+
+theorem timesOf_append (e e' l : Nat) (log : List (Nat × Nat)) :
+    timesOf e (log ++ [(e', l)]) = if e' = e then timesOf e log ++ [l] else timesOf e log := by
+  by_cases h : e' = e <;> simp [timesOf, List.filter_append, h]
+
+theorem timesOf_future (e epoch : Nat) (log : List (Nat × Nat)) (h : ∀ p ∈ log, p.1 ≤ epoch) (he : epoch < e) :
+    timesOf e log = [] := by
+  simp only [timesOf, List.map_eq_nil_iff, List.filter_eq_nil_iff]
+  intro p hp hpe
+  have := h p hp
+  simp at hpe
+  omega
+
+theorem consec_snoc (l : List Nat) (x : Nat) (h : Consec l) (hx : l = [] ∨ l.headD 0 + l.length = x) : Consec (l ++ [x]) := by
+  unfold Consec at *
+  cases l with
+  | nil => simp
+  | cons a rest =>
+    rcases hx with hx | hx
+    · cases hx
+    · simp only [List.headD_cons, List.length_cons] at hx h
+      simp only [List.cons_append, List.headD_cons, List.length_cons, List.length_append, List.length_nil]
+      have := range'_snoc a (rest.length + 1)
+      rw [← h, hx] at this
+      exact this
+
+theorem sstep_pre_of (c : SCfg) (s : SState) (e : SEv) (i : Nat) (h : (sstep c s e).ths[i]? = some Phase.pre) :
+    s.ths[i]? = some Phase.pre := by
+  cases e with
+  | acq k =>
+    simp only [sstep] at h
+    split at h
+    · split at h
+      · rcases getElem?_set_cases _ _ _ _ _ h with ⟨_, h2, _⟩ | ⟨_, h2⟩
+        · cases h2
+        · exact h2
+      · rcases getElem?_set_cases _ _ _ _ _ h with ⟨_, h2, _⟩ | ⟨_, h2⟩
+        · cases h2
+        · exact h2
+    · exact h
+  | fin k =>
+    simp only [sstep] at h
+    split at h
+    · rcases getElem?_set_cases _ _ _ _ _ h with ⟨_, h2, _⟩ | ⟨_, h2⟩
+      · cases h2
+      · exact h2
+    · exact h
+  | endS => simp only [sstep, sessionReq] at h; split at h <;> exact h
+  | beginS => simp only [sstep, sessionReq] at h; split at h <;> exact h
+  | restoreS => simp only [sstep, sessionReq] at h; split at h <;> exact h
+
+/-- a request that is holding after a lock event either was holding before or has just been accepted (it was
+`pre`, so it has not read the clock). -/
+theorem sstep_holding_of (c : SCfg) (s : SState) (e : SEv) (i : Nat) (h : (sstep c s e).ths[i]? = some Phase.holding) :
+    s.ths[i]? = some Phase.holding ∨ s.ths[i]? = some Phase.pre := by
+  cases e with
+  | acq k =>
+    simp only [sstep] at h
+    split at h
+    · rename_i hk
+      split at h
+      · rcases getElem?_set_cases _ _ _ _ _ h with ⟨_, h2, _⟩ | ⟨_, h2⟩
+        · cases h2
+        · exact Or.inl h2
+      · rcases getElem?_set_cases _ _ _ _ _ h with ⟨h1, _, _⟩ | ⟨_, h2⟩
+        · subst h1; exact Or.inr hk
+        · exact Or.inl h2
+    · exact Or.inl h
+  | fin k =>
+    simp only [sstep] at h
+    split at h
+    · rcases getElem?_set_cases _ _ _ _ _ h with ⟨_, h2, _⟩ | ⟨_, h2⟩
+      · cases h2
+      · exact Or.inl h2
+    · exact Or.inl h
+  | endS => simp only [sstep, sessionReq] at h; split at h <;> exact Or.inl h
+  | beginS => simp only [sstep, sessionReq] at h; split at h <;> exact Or.inl h
+  | restoreS => simp only [sstep, sessionReq] at h; split at h <;> exact Or.inl h
+
+theorem cinv_sess_same (c : SCfg) (hc : c.mutexOk = true) (s : CState) (e : SEv) (h : CInv s) :
+    CInv { s with base := sstep c s.base e } := by
+  refine ⟨minv_step c hc s.base e h.m, ?_, h.fut, h.old, h.cur0, h.cur, ?_⟩
+  · intro i hi; exact h.pre i (sstep_pre_of c s.base e i hi)
+  · intro i l hi hl
+    rcases sstep_holding_of c s.base e i hi with h1 | h1
+    · exact h.loc i l h1 hl
+    · have := h.pre i h1; rw [this] at hl; cases hl
+
+theorem cinv_sess_new (c : SCfg) (hc : c.mutexOk = true) (s : CState) (e : SEv) (h : CInv s) :
+    CInv { s with base := sstep c s.base e, epoch := s.epoch + 1, clock := 0 } := by
+  have hnew : timesOf (s.epoch + 1) s.log = [] := timesOf_future _ s.epoch s.log h.fut (by omega)
+  refine ⟨minv_step c hc s.base e h.m, ?_, ?_, h.old, fun _ => rfl, fun hne => absurd hnew hne, ?_⟩
+  · intro i hi; exact h.pre i (sstep_pre_of c s.base e i hi)
+  · intro p hp; have := h.fut p hp; show p.1 ≤ s.epoch + 1; omega
+  · intro i l _ _; exact Or.inr hnew
+
+theorem cinv_step (c : SCfg) (hc : c.mutexOk = true) (s : CState) (ev : CEv) (h : CInv s) : CInv (cstep c s ev) := by
+  cases ev with
+  | sess e =>
+    cases e with
+    | acq k => exact cinv_sess_same c hc s _ h
+    | fin k => exact cinv_sess_same c hc s _ h
+    | endS => exact cinv_sess_same c hc s _ h
+    | beginS =>
+      simp only [cstep]; split
+      · exact h
+      · exact cinv_sess_new c hc s _ h
+    | restoreS =>
+      simp only [cstep]; split
+      · exact h
+      · exact cinv_sess_new c hc s _ h
+  | rd k =>
+    simp only [cstep]
+    split
+    · rename_i hk
+      refine ⟨h.m, ?_, h.fut, h.old, h.cur0, h.cur, ?_⟩
+      · intro i hi
+        have hik : i ≠ k := by intro e; subst e; rw [hk.1] at hi; cases hi
+        rw [List.getElem?_set_ne (fun e => hik e.symm)]; exact h.pre i hi
+      · intro i l hi hl
+        rcases getElem?_set_cases _ _ _ _ _ hl with ⟨_, h2, _⟩ | ⟨_, h2⟩
+        · cases h2; exact Or.inl rfl
+        · exact h.loc i l hi h2
+    · exact h
+  | wr k =>
+    simp only [cstep]
+    split
+    · rename_i l hk hl
+      have hothers : ∀ i : Nat, i ≠ k → s.base.ths[i]? ≠ some Phase.holding := fun i hik hi => hik (h.m.uniq i k hi hk)
+      have hpre' : ∀ i : Nat, s.base.ths[i]? = some Phase.pre → (s.locs.set k none)[i]? = some none := by
+        intro i hi
+        have hik : i ≠ k := by intro e; subst e; rw [hk] at hi; cases hi
+        rw [List.getElem?_set_ne (fun e => hik e.symm)]; exact h.pre i hi
+      have hloc' : ∀ (i l' : Nat), s.base.ths[i]? = some Phase.holding → (s.locs.set k none)[i]? = some (some l') → False := by
+        intro i l' hi hl'
+        rcases getElem?_set_cases _ _ _ _ _ hl' with ⟨_, h2, _⟩ | ⟨h1, _⟩
+        · cases h2
+        · exact hothers i h1 hi
+      split
+      · -- the write lands in the current session state
+        have hcase := h.loc k l hk hl
+        have hcons : Consec (timesOf s.epoch s.log ++ [l]) := by
+          apply consec_snoc _ _ (h.old s.epoch)
+          by_cases hne : timesOf s.epoch s.log = []
+          · exact Or.inl hne
+          · rcases hcase with hcase | hcase
+            · exact Or.inr (by rw [hcase]; exact h.cur hne)
+            · exact absurd hcase hne
+        refine ⟨h.m, hpre', ?_, ?_, ?_, ?_, fun i l' hi hl' => absurd (hloc' i l' hi hl') id⟩
+        · intro p hp
+          rcases List.mem_append.mp hp with hp | hp
+          · exact h.fut p hp
+          · simp at hp; subst hp; exact Nat.le_refl _
+        · intro e
+          show Consec (timesOf e (s.log ++ [(s.epoch, l)]))
+          rw [timesOf_append]
+          split
+          · rename_i he; subst he; exact hcons
+          · exact h.old e
+        · intro hnil
+          have : timesOf s.epoch (s.log ++ [(s.epoch, l)]) = timesOf s.epoch s.log ++ [l] := by
+            rw [timesOf_append]; simp
+          rw [this] at hnil; simp at hnil
+        · intro _
+          show (timesOf s.epoch (s.log ++ [(s.epoch, l)])).headD 0 + (timesOf s.epoch (s.log ++ [(s.epoch, l)])).length = l + 1
+          have : timesOf s.epoch (s.log ++ [(s.epoch, l)]) = timesOf s.epoch s.log ++ [l] := by
+            rw [timesOf_append]; simp
+          rw [this]
+          by_cases hne : timesOf s.epoch s.log = []
+          · rw [hne]; simp
+          · rcases hcase with hcase | hcase
+            · have := h.cur hne
+              cases hts : timesOf s.epoch s.log with
+              | nil => exact absurd hts hne
+              | cons a rest => rw [hts] at this; simp at this ⊢; omega
+            · exact absurd hcase hne
+      · exact ⟨h.m, hpre', h.fut, h.old, h.cur0, h.cur, fun i l' hi hl' => absurd (hloc' i l' hi hl') id⟩
+    · exact h
+
+theorem cinv_run (c : SCfg) (hc : c.mutexOk = true) (sched : List CEv) : ∀ s, CInv s → CInv (crun c s sched) := by
+  induction sched with
+  | nil => intro s h; exact h
+  | cons e rest ih => intro s h; exact ih _ (cinv_step c hc s e h)
+
+theorem cinv_init (session0 : Bool) (n : Nat) : CInv (CState.init session0 n) := by
+  refine ⟨⟨fun i hi => absurd hi (init_no_holder _ _ _), fun i _ hi _ => absurd hi (init_no_holder _ _ _)⟩, ?_, ?_, ?_, ?_, ?_, ?_⟩
+  · intro i hi
+    simp only [CState.init, SState.init, List.getElem?_replicate] at hi ⊢
+    split at hi
+    · rename_i hlt; simp [hlt]
+    · cases hi
+  · intro p hp; simp [CState.init] at hp
+  · intro e; simp [CState.init, timesOf, Consec]
+  · intro _; rfl
+  · intro hne; simp [CState.init, timesOf] at hne
+  · intro i l hi _; exact absurd hi (init_no_holder _ _ _)
+
+/-- **Consecutive steps, no time twice, clock = steps — per session state, under session requests** (repaired
+tree: flag on the instance, `lock()` unconditional): for every initial situation, any number of requests and every
+schedule of acquisitions, endings, clock reads/writes and `end-session` / `begin-session` / restore requests, the
+times logged in each session state are consecutive (no gap, none twice), and the clock of the current one is its
+first logged time plus the number of steps logged (0 if nothing was logged).  A session state begun while a
+`run_step` was between its read and its write starts at that step's time instead of 0 (see the examples) — it is
+still consecutive. -/
+theorem C18_consecutive_sessions (c : SCfg) (hc : c.mutexOk = true) (session0 : Bool) (n : Nat) (sched : List CEv) :
+    (∀ e : Nat, Consec (timesOf e (crun c (CState.init session0 n) sched).log)) ∧
+    (∀ e : Nat, (timesOf e (crun c (CState.init session0 n) sched).log).Nodup) ∧
+    (timesOf (crun c (CState.init session0 n) sched).epoch (crun c (CState.init session0 n) sched).log = [] →
+      (crun c (CState.init session0 n) sched).clock = 0) ∧
+    (timesOf (crun c (CState.init session0 n) sched).epoch (crun c (CState.init session0 n) sched).log ≠ [] →
+      (timesOf (crun c (CState.init session0 n) sched).epoch (crun c (CState.init session0 n) sched).log).headD 0 +
+        (timesOf (crun c (CState.init session0 n) sched).epoch (crun c (CState.init session0 n) sched).log).length =
+        (crun c (CState.init session0 n) sched).clock) := by
+  have h := cinv_run c hc sched _ (cinv_init session0 n)
+  refine ⟨h.old, ?_, h.cur0, h.cur⟩
+  intro e
+  have := h.old e
+  unfold Consec at this
+  rw [this]
+  exact List.nodup_range'
+
+/-- what is NOT true, on the repaired tree as well (the statement's quantifier has no session requests):
+(1) a `begin-session` between two steps of a running request: the *request* logs 0, 1 and then 0 again — its
+response mixes two session states, each of them consecutive; (2) a `begin-session` between the read and the
+write of one `run_step`: the new session state starts at time 2 and its clock at 3. -/
+example :
+    let c : SCfg := ⟨true, false, false, false⟩
+    (crun c (CState.init true 1) [.sess (.acq 0), .rd 0, .wr 0, .rd 0, .wr 0, .sess .beginS, .rd 0, .wr 0]).log =
+      [(0, 0), (0, 1), (1, 0)] ∧
+    (crun c (CState.init true 1) [.sess (.acq 0), .rd 0, .wr 0, .rd 0, .wr 0, .rd 0, .sess .beginS, .wr 0]).log =
+      [(0, 0), (0, 1), (1, 2)] ∧
+    (crun c (CState.init true 1) [.sess (.acq 0), .rd 0, .wr 0, .rd 0, .wr 0, .rd 0, .sess .beginS, .wr 0]).clock = 3 := by
+  decide
+
+/-- with the flag in the session state (before the repair) the per-session clause fails too: request 1 gets in
+after the `begin-session`, both read time 0 of the new session state, time 0 is logged twice. -/
+example :
+    timesOf 1 (crun ⟨false, true, true, false⟩ (CState.init true 2)
+      [.sess (.acq 0), .sess .beginS, .sess (.acq 1), .rd 0, .rd 1, .wr 0, .wr 1]).log = [0, 0] := by decide
+
+#print axioms C18_consecutive_sessions
+
 end Bptk.C18.Sess
+
+/-! ### The generator protocol (wave 6): release on client-gone from the shape of the streamer -/
+namespace Bptk.C18.Gen
+
+/-- the streamer of the current tree (the per-run obligation is stated on the shape read off the source by `ast`;
+this copy documents it and anchors the examples):
+`try: yield; yield "["; while …: (if first: … else: yield ","); (if …: run_step else: run_step);
+ (if result: yield … else: yield …); yield "]"  except: pass  finally: unlock()`, then `if adapter: save`. -/
+def streamerNow : List Tok :=
+  [.tryB, .yld, .yld, .other, .condB true, .condB false, .other, .endCond false, .condB false, .yld, .endCond false,
+   .condB false, .other, .endCond false, .condB false, .other, .endCond false,
+   .condB false, .yld, .endCond false, .condB false, .yld, .endCond false, .endCond true, .yld,
+   .exceptB true, .other, .finallyB, .unlock, .endTry, .condB false, .other, .endCond false]
+
+/-- round-4 seed: the closing `yield "]"` moved into the `finally` clause, in front of `unlock()`. -/
+def streamerYieldInFinally : List Tok :=
+  [.tryB, .yld, .yld, .other, .condB true, .condB false, .other, .endCond false, .condB false, .other, .endCond false,
+   .condB false, .other, .endCond false, .condB false, .yld, .endCond false,
+   .condB false, .yld, .endCond false, .condB false, .yld, .endCond false, .endCond true,
+   .exceptB true, .other, .finallyB, .yld, .unlock, .endTry, .condB false, .other, .endCond false]
+
+theorem closeSafe_sound (prog : List Tok) (h : closeSafe prog = true) (k : Nat) (hk : k ∈ yieldIdx prog) :
+    genClose prog (.suspended k) = (.closed, true) := by
+  have := List.all_eq_true.mp h k hk
+  simp only [Bool.and_eq_true, Bool.not_eq_true'] at this
+  simp [genClose, this.1, this.2]
+
+/-- and conversely: if the shape is not safe there is a yield at which `close()` either never reaches `unlock()`
+or is answered by another `yield` (the frame stays suspended). -/
+theorem closeSafe_complete (prog : List Tok) (h : closeSafe prog = false) :
+    ∃ k ∈ yieldIdx prog, genClose prog (.suspended k) ≠ (.closed, true) := by
+  obtain ⟨k, hk, hbad⟩ := List.all_eq_false.mp (by simpa [closeSafe] using h :
+    (yieldIdx prog).all (fun k => (closeAt prog k).unlocked && !(closeAt prog k).stuck) = false)
+  refine ⟨k, hk, ?_⟩
+  intro heq
+  apply hbad
+  simp only [genClose] at heq
+  cases hs : (closeAt prog k).stuck <;> cases hu : (closeAt prog k).unlocked <;> simp_all
+
+example : closeSafe streamerNow = true := by decide
+example : closeSafe streamerYieldInFinally = false := by decide
+
+/-- what happens on the seeded shape: closing at the first step's chunk is caught by the bare `except`, the
+`finally` yields again (RuntimeError in the closer, frame left suspended), `unlock()` is not reached; closing at the
+yield inside the `finally` skips the `unlock()` behind it. -/
+example : genClose streamerYieldInFinally (.suspended 15) = (.stuckAt 15, false) ∧
+    genClose streamerYieldInFinally (.suspended 27) = (.closed, false) := by decide
+
+/-- variations: without the bare `except` the exception propagates through the `finally` — a `yield` there is still
+an error; an `unlock()` placed before the `yield` in the `finally` is executed (the lock is released although
+the close fails); an `unlock()` only inside an `if` does not count. -/
+example : closeSafe [.tryB, .yld, .finallyB, .unlock, .endTry] = true ∧
+    closeAt [.tryB, .yld, .finallyB, .yld, .unlock, .endTry] 1 = ⟨false, true⟩ ∧
+    closeAt [.tryB, .yld, .exceptB true, .other, .finallyB, .unlock, .yld, .endTry] 1 = ⟨true, true⟩ ∧
+    closeAt [.tryB, .yld, .exceptB true, .other, .finallyB, .condB false, .unlock, .endCond false, .endTry] 1 = ⟨false, false⟩ ∧
+    closeAt [.condB true, .tryB, .yld, .exceptB true, .other, .endTry, .endCond true, .unlock] 2 = ⟨false, true⟩ ∧
+    closeAt [.tryB, .yld, .exceptB false, .other, .finallyB, .unlock, .endTry] 1 = ⟨true, false⟩ := by decide
+
+end Bptk.C18.Gen
+
+namespace Bptk.C18
+
+/-- **Release from the shape of the streamer**: if closing the generator at every `yield` executes `unlock()` and
+reaches no further `yield` (`closeSafe`, kernel-decided on the token list read off the real source), and the fact
+`unlockOnClientGone` of the machine is that shape fact, then — together with the two other release facts — clause
+(f) holds for every stop time, request list and schedule (client-gone events at every suspension point included). -/
+theorem C18_release_of_shape (c : Cfg) (prog : List Gen.Tok) (hs : Gen.closeSafe prog = true)
+    (hg : c.unlockOnClientGone = Gen.closeSafe prog) (hd : c.streamUnlocksOnDone = true) (he : c.unlockOnError = true)
+    (stop : Nat) (ks : List Kind) (sched : Schedule) : ClRelease (run c (State.init stop ks) sched) :=
+  C18_release c ((releaseOk_iff c).mpr ⟨hd, he, by rw [hg, hs]⟩) stop ks sched
+
+/-- **witness for yield-in-finally**: a machine whose client-gone fact is the shape fact of the seeded streamer
+violates the statement (a stream closed by its client ends holding the lock). -/
+theorem C18_witness_yield_in_finally (c : Cfg) (hg : c.unlockOnClientGone = Gen.closeSafe Gen.streamerYieldInFinally) :
+    ¬ C18_full c :=
+  C18_witness_client_gone c (by rw [hg]; decide)
+
+#print axioms Gen.closeSafe_sound
+#print axioms Gen.closeSafe_complete
+#print axioms C18_release_of_shape
+#print axioms C18_witness_yield_in_finally
+
+end Bptk.C18
